@@ -373,3 +373,16 @@ package task
 // ---- C18: lock discipline of the shared tables (every function touching them is scanned) ----------------
 //@ guarded_by Executor.executionHashes Executor.executionHashesMutex                                               [C18]
 //@ guarded_by Compiler.dynamicCache Compiler.muDynamicCache                                                        [C18]
+
+// ---- C11: compiling a task builds a fresh object graph ---------------------------------------------------
+// Every command, dependency and precondition put into the compiled task is a copy made during this call (so
+// that templating it, or the lazy templating of deferred commands, never writes into the task definition),
+// and the compiled task itself is a new object.
+//@ func (*Executor).compiledTask
+//@   site append requires fresh(arg1[0])                                                                       [C11,C18]
+//@   ensures result.1 == nil ==> fresh(result.0)                                                               [C11]
+
+// Resolving the refs of a matrix must not write into the matrix of the task definition: it is shared by every
+// call of the task (and by concurrently compiling goroutines).
+//@ func resolveMatrixRefs$1
+//@   modifies github.com/go-task/task/v3/internal/templater.*                                                  [C11,C18]
